@@ -5,6 +5,7 @@
 package main
 
 import (
+	"context"
 	"encoding/json"
 	"fmt"
 	"math"
@@ -16,7 +17,9 @@ import (
 
 	"go.mongodb.org/mongo-driver/bson"
 	"go.mongodb.org/mongo-driver/bson/primitive"
+	"go.mongodb.org/mongo-driver/mongo/options"
 
+	"github.com/256dpi/lungo"
 	"github.com/256dpi/lungo/bsonkit"
 	"github.com/256dpi/lungo/mongokit"
 
@@ -95,6 +98,82 @@ func record(doc, upd bson.D, afs []bson.D, upsert bool) result {
 	return res
 }
 
+// driverCheck runs the update through the driver API (InsertOne, UpdateOne,
+// FindOne) and checks that the stored document is the one mongokit.Apply
+// produced and that ModifiedCount is 1 exactly when the stored bytes changed.
+var client lungo.IClient
+var collSeq int
+
+func driverCheck(doc, upd bson.D, afs []bson.D, applied result) (checked bool) {
+	defer func() {
+		if r := recover(); r != nil {
+			panics++
+			out.Encode(map[string]interface{}{"kind": "panic", "doc": table.Val(doc), "upd": table.Val(upd), "panic": "driver: " + fmt.Sprint(r)})
+		}
+	}()
+	for _, e := range doc {
+		if e.Key == "_id" {
+			return false
+		}
+	}
+	doc = append(bson.D{{Key: "_id", Value: int32(1)}}, doc...)
+	applied = apply(doc, upd, afs, false)
+	if applied.pnc {
+		return false
+	}
+	ctx := context.Background()
+	if client == nil {
+		c, _, err := lungo.Open(ctx, lungo.Options{Store: lungo.NewMemoryStore()})
+		if err != nil {
+			util.Die("open: %v", err)
+		}
+		client = c
+	}
+	collSeq++
+	coll := client.Database("d").Collection("c" + strconv.Itoa(collSeq%4))
+	coll.Drop(ctx)
+	if _, err := coll.InsertOne(ctx, doc); err != nil {
+		return false
+	}
+	opts := options.Update()
+	if len(afs) > 0 {
+		fl := make([]interface{}, 0, len(afs))
+		for _, f := range afs {
+			fl = append(fl, f)
+		}
+		opts.SetArrayFilters(options.ArrayFilters{Filters: fl})
+	}
+	res, err := coll.UpdateOne(ctx, bson.D{{Key: "_id", Value: doc[0].Value}}, upd, opts)
+	var stored bson.D
+	if e := coll.FindOne(ctx, bson.D{}).Decode(&stored); e != nil {
+		return false
+	}
+	if applied.err != (err != nil) {
+		out.Encode(map[string]interface{}{"kind": "driver", "what": "rejection differs between mongokit.Apply and UpdateOne", "doc": table.Val(doc), "upd": table.Val(upd)})
+		return true
+	}
+	if err != nil {
+		if !sameBytes(stored, doc) {
+			out.Encode(map[string]interface{}{"kind": "driver", "what": "rejected UpdateOne changed the stored document", "doc": table.Val(doc), "upd": table.Val(upd), "stored": table.Val(stored)})
+		}
+		return true
+	}
+	changed := !sameBytes(stored, doc)
+	if (res.ModifiedCount == 1) != changed || res.MatchedCount != 1 {
+		out.Encode(map[string]interface{}{"kind": "modified", "doc": table.Val(doc), "upd": table.Val(upd), "modified": res.ModifiedCount == 1, "stored": table.Val(stored)})
+	}
+	hasNow := false
+	for _, e := range upd {
+		if e.Key == "$currentDate" {
+			hasNow = true
+		}
+	}
+	if !hasNow && !sameBytes(stored, applied.doc) {
+		out.Encode(map[string]interface{}{"kind": "driver", "what": "UpdateOne stored a different document than mongokit.Apply produced", "doc": table.Val(doc), "upd": table.Val(upd), "stored": table.Val(stored)})
+	}
+	return true
+}
+
 var idempotent = map[string]bool{"$set": true, "$unset": true, "$min": true, "$max": true, "$addToSet": true, "$pull": true, "$pullAll": true}
 
 func sameBytes(a, b bson.D) bool {
@@ -148,7 +227,7 @@ func main() {
 	n, _ := strconv.Atoi(os.Args[4])
 	g := gen.New(seed)
 	trace = util.CreateNDJSON(filepath.Join(dir, "trace.ndjson"))
-	errs, oks, idem, idemViol := 0, 0, 0, 0
+	errs, oks, idem, idemViol, modChecks := 0, 0, 0, 0, 0
 	for _, fc := range fixedCases() {
 		record(fc[0], fc[1], nil, false)
 	}
@@ -159,6 +238,9 @@ func main() {
 		res := record(doc, upd, afs, upsert)
 		if res.pnc {
 			continue
+		}
+		if !upsert && i%3 == 0 && driverCheck(doc, upd, afs, res) {
+			modChecks++
 		}
 		if res.err {
 			errs++
@@ -206,5 +288,5 @@ func main() {
 	}
 	trace.Close()
 	util.WriteJSON(filepath.Join(dir, "strings.json"), table.JSON())
-	out.Encode(map[string]interface{}{"kind": "summary", "cases": trace.N, "ok": oks, "rejected": errs, "idempotence_checks": idem, "idempotence_violations": idemViol, "panics": panics})
+	out.Encode(map[string]interface{}{"kind": "summary", "cases": trace.N, "ok": oks, "rejected": errs, "idempotence_checks": idem, "idempotence_violations": idemViol, "modified_checks": modChecks, "panics": panics})
 }
